@@ -7,6 +7,7 @@ import (
 	"fmt"
 	"math"
 	"math/rand"
+	"sync/atomic"
 	"time"
 )
 
@@ -445,7 +446,7 @@ func retryFScenario(h *hctx) {
 	h.line("F retry_consts c0 | %d %d", maxShiftUint32, int64(defaultExponentialRetryRate))
 
 	// 2. range of the real delay computation: every c in 0..40 (and a few huge ones) x rates x draws
-	draws := h.pi("draws", 12)
+	draws := h.pi("draws", h.n) // VERIF_N = draws per (c, rate): 12 quick, 60 thorough
 	rates := []int{1, 3, 1000, 999983, int(defaultExponentialRetryRate), 1 << 30}
 	cs := make([]uint32, 0, 48)
 	for c := uint32(0); c <= 40; c++ {
@@ -495,7 +496,7 @@ func retryFScenario(h *hctx) {
 		}
 	}
 	if sync {
-		nEx := h.pi("exact", 600)
+		nEx := h.pi("exact", 50*h.n)
 		for k := 0; k < nEx; k++ {
 			c := uint32(h.rng.Intn(44))
 			rate := 1 + h.rng.Intn(1<<30-1)
@@ -532,13 +533,15 @@ func retryFScenario(h *hctx) {
 	}
 	for k := 0; k < 3; k++ {
 		ctx, cancel := context.WithCancel(context.Background())
-		var cancelledAt time.Time
-		go func() { time.Sleep(15 * time.Millisecond); cancelledAt = time.Now(); cancel() }()
-		t0 := time.Now()
-		el, ok := retryTimed(h, "waitDuration(1h)", slack, func() { waitDuration(ctx, time.Hour) })
+		var issued, early atomic.Bool
+		go func() { time.Sleep(15 * time.Millisecond); issued.Store(true); cancel() }()
+		el, ok := retryTimed(h, "waitDuration(1h)", slack, func() {
+			waitDuration(ctx, time.Hour)
+			early.Store(!issued.Load())
+		})
 		if !ok {
 			h.line("MONITOR C18 waitDuration was not cut short by cancellation (%v)", el)
-		} else if ctx.Err() == nil || t0.Add(el).Before(cancelledAt) {
+		} else if early.Load() {
 			h.line("MONITOR C18 waitDuration(1h) returned before the cancellation")
 		}
 		cancel()
@@ -556,7 +559,7 @@ func retryFScenario(h *hctx) {
 	}
 
 	// 5. end to end with the real seams: short scripts at a 1µs rate (delays < 2^12 µs)
-	nReal := h.pi("real", 60)
+	nReal := h.pi("real", 5*h.n)
 	for k := 0; k < nReal; k++ {
 		retryRealCase(h, k)
 	}
@@ -577,7 +580,7 @@ func retryFScenario(h *hctx) {
 		})
 		var res interface{}
 		var err error
-		go func() { time.Sleep(30 * time.Millisecond); close(cancelled); cancel() }()
+		go func() { time.Sleep(30 * time.Millisecond); cancel(); close(cancelled) }() // closed only once ctx IS cancelled
 		el, ok := retryTimed(h, "closure with 1h slots", slack, func() { res, err = fn() })
 		switch {
 		case !ok:
